@@ -51,9 +51,10 @@ type Contract struct {
 }
 
 type CountDef struct {
-	Ghost string
-	Cond  *SExpr
-	Src   string
+	Ghost  string
+	Cond   *SExpr // counts: increment when Cond
+	Assign *SExpr // records: ghost := Assign
+	Src    string
 }
 
 type LetDef struct {
@@ -116,7 +117,7 @@ type Specs struct {
 var headerRe = regexp.MustCompile(`^func\s*(\(\s*(\w+)?\s*(\*?)\s*(\w+)\s*\))?\s*(\w+)\s*$`)
 
 var clauseKw = map[string]bool{"property": true, "opts": true, "requires": true, "ensures": true, "modifies": true,
-	"loop": true, "invariant": true, "inline": true, "implements": true, "counts": true, "let": true, "params": true, "decreases": true}
+	"loop": true, "invariant": true, "inline": true, "implements": true, "counts": true, "records": true, "let": true, "params": true, "decreases": true}
 var topKw = map[string]bool{"spec": true, "ghost": true, "lemma": true, "axiom": true, "func": true, "closure": true,
 	"interface": true, "extern": true, "directive": true, "fnvalue": true}
 
@@ -344,6 +345,19 @@ func loadContractFile(path, pkgPath string, resolveQual func(q string) string, s
 				return fail(l, "%v", err)
 			}
 			cur.Counts = append(cur.Counts, CountDef{Ghost: strings.TrimSpace(rest[:k]), Cond: e, Src: rest[k+6:]})
+		case "records":
+			if cur == nil {
+				return fail(l, "records outside a contract")
+			}
+			k := strings.Index(rest, "=")
+			if k < 0 {
+				return fail(l, "records <ghost> = <expression over results>")
+			}
+			e, err := parseSpecExpr(rest[k+1:])
+			if err != nil {
+				return fail(l, "%v", err)
+			}
+			cur.Counts = append(cur.Counts, CountDef{Ghost: strings.TrimSpace(rest[:k]), Assign: e, Src: rest[k+1:]})
 		case "inline":
 			if cur == nil {
 				return fail(l, "inline outside a contract")
